@@ -219,24 +219,24 @@ def run_lines(exe, mode, lines, tag, work, nproc=NPROC):
         return []
     k = max(1, min(nproc, (n + 199) // 200))
     size = (n + k - 1) // k
-    jobs = []
+    jobs, wants = [], []
     for i in range(k):
         chunk = lines[i * size:(i + 1) * size]
         if not chunk:
             continue
         inp = os.path.join(work, f"{tag}.{i}.in")
         outp = os.path.join(work, f"{tag}.{i}.out")
-        with open(inp, "w", encoding="utf-8") as f:
+        with open(inp, "w", encoding="utf-8", newline="\n") as f:
             f.write("\n".join(chunk) + "\n")
         jobs.append((exe, mode, inp, outp))
+        wants.append(len(chunk))
     with ThreadPoolExecutor(max_workers=len(jobs)) as ex:
         res = list(ex.map(_run_chunk, jobs))
     out = []
-    for (rc, err), (_, _, inp, outp) in zip(res, jobs):
-        got = open(outp, encoding="utf-8", errors="replace").read().split("\n")
+    for (rc, err), (_, _, inp, outp), want in zip(res, jobs, wants):
+        got = open(outp, encoding="utf-8", errors="replace", newline="\n").read().split("\n")
         if got and got[-1] == "":
             got.pop()
-        want = sum(1 for _ in open(inp, encoding="utf-8"))
         if rc != 0 or len(got) != want:
             # the process died on some line (abort / stack overflow): mark the rest
             got = got[:want] + [f"CRASH rc={rc} {err.strip()[-200:]}"] * (want - len(got))
